@@ -137,3 +137,19 @@ CLAIMS["C18"] = {
 H("C18", "svg", "VxH_C18_numbers", reach=["valid", "invalid"], bounds="number list text of 1..4 bytes (thorough 5) over [0-9 . - + e space comma]", thorough={"shards": 8, "time": "2400s", "maxpaths": 4000000})
 H("C18", "svg", "VxH_C18_viewbox", mode="real", reach=["resolved"], bounds="fully symbolic positive viewport and viewBox sizes, symbolic origin; 9 alignments x none/meet/slice")
 H("C18", "svg", "VxH_C18_path", mode="real", reach=["parsed"], bounds="'M x y', one optional previous command (L C Q S T Z c q), then any of MmLlHhVvCcSsQqTtZz with 1..2 argument groups; coordinates are symbolic digits")
+
+# ---- C03 cascade ----
+ASSUMPTIONS["C03"] = [
+    "one element, one property (orphans), K competing declarations with symbolic origin, importance and selector specificity supplied through hand-built sheets whose selectors are stubs that match every element; real selector matching is C05's subject",
+    "@import / @media filtering and stylesheet fetching are outside the claim",
+]
+CLAIMS["C03"] = {
+    "text": "The solver explores every combination of origin, importance, specificity and position for K<=2 (thorough 3) declarations plus an optional (important) style attribute and shows that the value computed by the real cascade (newStyleFor, weight.Less, declarationPrecedence, findStyleAttributes) is the one the CSS cascade order designates; the weight order is shown to be a total preorder; nested-rule flattening preserves source order; @page :nth matching equals the an+b definition.",
+    "design_ref": "DESIGN.md section 4 C03",
+    "note": "Trusted: symgo, z3. Stub selectors; K bounded; single property.",
+}
+H("C03", "html/tree", "VxH_C03_precedence", reach=["compared"], bounds="two (origin, important) pairs")
+H("C03", "html/tree", "VxH_C03_weight", reach=["done"], bounds="three weights, precedence 1..5, specificity components 0..3")
+H("C03", "html/tree", "VxH_C03_cascade", reach=["computed", "style-attribute"], bounds="K=2 (thorough 3) declarations: origin in {UA,user,author}, importance, specificity in [0..2]x[0..1]x[0..1]; optional style attribute (plain / !important)")
+H("C03", "css/validation", "VxH_C03_nesting", reach=["flattened"], bounds="style rule with 1..3 items, each an own declaration, a nested '&{...}' rule or an unrelated nested rule")
+H("C03", "html/tree", "VxH_C03_page", reach=["nth-match", "nth-no-match"], bounds="@page selector with side/name/blank/first symbolic, :nth step A enumerated in [-6,6], offset |B| <= 2^10 (thorough 2^20), page index in [0, 2^10] (thorough 2^20), witness n arbitrary")
